@@ -34,11 +34,17 @@ HeaderNs(h) == IF h = "Session" THEN "tns" ELSE "urn:hdr"
 FaultNs(f)  == IF f = "AuthFault" THEN "urn:flt" ELSE ""
 Svc(cls, pts, ms) == [cls |-> cls, pts |-> pts, methods |-> ms]
 App(svcs) == [name |-> "Zoo", tns |-> "tns", services |-> svcs]
+PlainM(n) == CHOOSE m \in Plain : m.name = n
 Small == {S \in SUBSET Plain : Cardinality(S) \in {1, 2}}
 Apps == {App(<<Svc("A", <<>>, S)>>) : S \in Small \cup {Plain}}
         \cup {App(<<Svc("P", <<"PT1", "PT2">>, Ported)>>)}
         \cup {App(<<Svc("A", <<>>, S), Svc("P", <<"PT1", "PT2">>, Ported)>>) : S \in {T \in Small : Cardinality(T) = 1}}
         \cup {App(<<Svc("A", <<>>, S), Svc("B", <<>>, Plain \ S)>>) : S \in {T \in SUBSET Plain : Cardinality(T) = 5 /\ M("m1", "m1", "m1", "m1Response", "wrapped", <<>>, <<>>, <<>>, "", "int_int") \in T}}
+        \* three services: every place of the service with explicit port types among two without
+        \cup {App(o) : o \in {<<Svc("A", <<>>, {PlainM("m1")}), Svc("P", <<"PT1", "PT2">>, Ported), Svc("B", <<>>, {PlainM("m4")})>>,
+                               <<Svc("P", <<"PT1", "PT2">>, Ported), Svc("A", <<>>, {PlainM("m1")}), Svc("B", <<>>, {PlainM("m4")})>>,
+                               <<Svc("A", <<>>, {PlainM("m1")}), Svc("B", <<>>, {PlainM("m4")}), Svc("P", <<"PT1", "PT2">>, Ported)>>,
+                               <<Svc("P", <<"PT1", "PT2">>, Ported), Svc("A", <<>>, {PlainM("m3")})>>}}
 \* the thorough tier adds every three-method service
 AppsThorough == Apps \cup {App(<<Svc("A", <<>>, S)>>) : S \in {T \in SUBSET Plain : Cardinality(T) = 3}}
 MethodsOf(a) == UNION {a.services[k].methods : k \in 1..Len(a.services)}
